@@ -173,7 +173,9 @@ pub fn cmd_c10(which: &str, _seed: u64, _n: usize, out: &mut dyn Write, dirs: &[
 /// arguments) followed by `n` programs of the direct linear-AxCut generator (`gen_axlin`)
 pub fn codegen_inputs(which: &str, seed: u64, n: usize, extra: &[String]) -> Vec<(String, axcut::syntax::Prog)> {
     let gen_only = extra.iter().any(|a| a == "--gen-only");
-    let dirs: Vec<String> = extra.iter().filter(|a| !a.starts_with("--")).cloned().collect();
+    // `--defaults`: the default directories in addition to the ones listed
+    let mut dirs: Vec<String> = if extra.iter().any(|a| a == "--defaults") { pipe::default_dirs() } else { Vec::new() };
+    dirs.extend(extra.iter().filter(|a| !a.starts_with("--")).cloned());
     let mut v = if gen_only { Vec::new() } else { linear_programs(&dirs) };
     let cfg = crate::gen_axlin::Cfg { max_args: match which { "x86" => 5, "a64" | "rv" => 7, _ => 5 }, ..Default::default() };
     v.extend(crate::gen_axlin::programs(seed, n, &cfg));
